@@ -25,6 +25,12 @@ func init() {
 		Assumptions: []string{"the TOML decoder fills Config fields by their tags"},
 		Run:         runC11,
 		Mutants: []Mutant{
+			{Name: "merge-appends-to-inherited-list", File: "config/config.go", Rule: "R11.6", KeyPart: "mergeLists::append-to-own-storage",
+				Old: "func mergeLists(a, b []string) []string {\n", New: "func mergeLists(a, b []string) []string {\n\tif len(b) > 0 && b[0] == \"inherit\" && !slices.Contains(b[1:], \"inherit\") {\n\t\treturn append(a, b[1:]...)\n\t}\n",
+				More: []Edit{{File: "config/config.go", Old: "\t\"reflect\"\n", New: "\t\"reflect\"\n\t\"slices\"\n"}}},
+			{Name: "normalize-compacts-in-place", File: "config/config.go", Rule: "R11.6", KeyPart: "normalizeList::in-place-Compact",
+				Old: "\tif len(list) > 1 {\n\t\tnlist := make([]string, 0, len(list))\n\t\tnlist = append(nlist, list[0])\n\t\tfor i, el := range list[1:] {\n\t\t\tif el != list[i] {\n\t\t\t\tnlist = append(nlist, el)\n\t\t\t}\n\t\t}\n\t\tlist = nlist\n\t}\n", New: "\tlist = slices.Compact(list)\n",
+				More: []Edit{{File: "config/config.go", Old: "\t\"reflect\"\n", New: "\t\"reflect\"\n\t\"slices\"\n"}}},
 			{Name: "merge-wrong-field", File: "config/config.go", Rule: "R11.1", KeyPart: "Merge::DotImportWhitelist",
 				Old: "\t\tcfg.DotImportWhitelist = mergeLists(cfg.DotImportWhitelist, ocfg.DotImportWhitelist)", New: "\t\tcfg.DotImportWhitelist = mergeLists(cfg.Initialisms, ocfg.DotImportWhitelist)"},
 			{Name: "merge-reversed", File: "config/config.go", Rule: "R11.1", KeyPart: "Merge::Checks",
@@ -506,6 +512,107 @@ func runC11(c *Ctx) {
 		})
 		c.Check(FuncKey(succ)+"::keeps-exactly-the-selected-checks", succ.Pos(), kept, "a problem is kept only if its (case-folded) category is selected")
 	})
+	// R11.6: configurations of different packages must not share list storage.
+	// Merge/Load hand out Config values whose lists are read later (per
+	// package) while other packages' configurations are still being merged; a
+	// list that was appended to in place, or compacted/sorted in place, can
+	// alias the inherited list (DefaultConfig, the parent directory's config)
+	// and is then overwritten by the next package's merge.
+	c.Rule("R11.6", func() {
+		c.Floor("R11.6", 3)
+		var isFresh func(v ssa.Value, seen map[ssa.Value]bool) bool
+		isFresh = func(v ssa.Value, seen map[ssa.Value]bool) bool {
+			if seen[v] {
+				return true
+			}
+			seen[v] = true
+			switch v := v.(type) {
+			case *ssa.MakeSlice:
+				return true
+			case *ssa.Const:
+				return v.IsNil()
+			case *ssa.Alloc:
+				return true // a local array (slice literal, varargs)
+			case *ssa.Slice:
+				if v.Max != nil {
+					return true // capacity-limited: an append reallocates
+				}
+				return isFresh(v.X, seen)
+			case *ssa.Phi:
+				for _, e := range v.Edges {
+					if !isFresh(e, seen) {
+						return false
+					}
+				}
+				return true
+			case *ssa.ChangeType:
+				return isFresh(v.X, seen)
+			case *ssa.Call:
+				if IsCallTo(v, "builtin.append") {
+					return isFresh(v.Call.Args[0], seen)
+				}
+				switch CalleeName(&v.Call) {
+				case "slices.Clone", "slices.Concat", "slices.Collect", "slices.Sorted", "strings.Split", "strings.Fields", "slices.AppendSeq":
+					return CalleeName(&v.Call) != "slices.AppendSeq"
+				}
+				if callee := v.Call.StaticCallee(); callee != nil && FuncPkgPath(callee) == configPkg && callee.Blocks != nil {
+					for _, r := range Returns(callee) {
+						for _, res := range r.Results {
+							if _, isSlice := res.Type().Underlying().(*types.Slice); isSlice && !isFresh(res, seen) {
+								return false
+							}
+						}
+					}
+					return true
+				}
+				return false
+			}
+			return false
+		}
+		inPlace := map[string]bool{"slices.Compact": true, "slices.CompactFunc": true, "slices.Sort": true, "slices.SortFunc": true, "slices.SortStableFunc": true, "slices.Reverse": true,
+			"slices.Delete": true, "slices.DeleteFunc": true, "slices.Insert": true, "slices.Replace": true, "sort.Strings": true, "sort.Slice": true, "sort.SliceStable": true, "sort.Sort": true, "sort.Stable": true, "builtin.copy": true, "builtin.clear": true}
+		isStringList := func(t types.Type) bool {
+			sl, ok := t.Underlying().(*types.Slice)
+			if !ok {
+				return false
+			}
+			b, ok := sl.Elem().Underlying().(*types.Basic)
+			return ok && b.Kind() == types.String
+		}
+		nSites := 0
+		for _, fn := range c.ModuleFuncs() {
+			if FuncPkgPath(fn) != configPkg {
+				continue
+			}
+			n := 0
+			Instrs(fn, false, func(in ssa.Instruction) {
+				switch x := in.(type) {
+				case *ssa.Call:
+					name := CalleeName(&x.Call)
+					if name == "builtin.append" && isStringList(x.Type()) {
+						nSites++
+						c.SawFunc(fn.String())
+						c.Check(FuncKey(fn)+"::append-to-own-storage#"+itoa(n), x.Pos(), isFresh(x.Call.Args[0], map[ssa.Value]bool{}), "a configuration list may be grown only in storage this function allocated (make, a literal, slices.Clone, a capacity-limited slice): appending to a list received from outside writes into its spare capacity, which other packages' configurations share")
+						n++
+					} else if inPlace[name] && len(x.Call.Args) > 0 && isStringList(x.Call.Args[0].Type()) {
+						nSites++
+						c.Check(FuncKey(fn)+"::in-place-"+name[strings.LastIndex(name, ".")+1:]+"#"+itoa(n), x.Pos(), isFresh(x.Call.Args[0], map[ssa.Value]bool{}), "%s rewrites its argument in place; a configuration list received from outside may be shared with other packages' configurations", name)
+						n++
+					}
+				case *ssa.Store:
+					if ia, ok := x.Addr.(*ssa.IndexAddr); ok && isStringList(ia.X.Type()) {
+						nSites++
+						c.Check(FuncKey(fn)+"::element-store#"+itoa(n), x.Pos(), isFresh(ia.X, map[ssa.Value]bool{}), "an element of a configuration list received from outside is overwritten")
+						n++
+					}
+				}
+			})
+		}
+		if nSites < 3 {
+			c.Undecided("found only %d list-building sites in package config", nSites)
+		}
+	})
+
 }
 
 // reachesLoopAgain reports whether the instruction lies in a cycle of the CFG.
